@@ -1,5 +1,7 @@
 #!/usr/bin/env python3
-"""seed_recheck.py <name>...: re-run all claimed checks against stored seeded changes (applied to /repo, reverted straight afterwards)."""
+"""seed_recheck.py [--first-hit] <name>...: re-run the claimed checks against stored seeded changes (applied to /repo, reverted straight
+afterwards). With --first-hit the checks are tried in the order: the property the seed was written for, the properties that caught it
+last time, the rest; the run of a seed stops at the first VIOLATION and meta.json is left as it is (a quick "is it still caught")."""
 import json, os, subprocess, sys, time
 VERIF = '/verif'
 REPO = os.environ.get('VERIF_REPO', '/repo')   # a scratch checkout when several rechecks run side by side
@@ -8,7 +10,8 @@ def sh(cmd, cwd=None):
     p = subprocess.run(cmd, shell=True, cwd=cwd, capture_output=True, text=True)
     return p.returncode, p.stdout + p.stderr
 
-names = sys.argv[1:] or sorted(os.listdir(f'{VERIF}/seeded'))
+FIRST_HIT = '--first-hit' in sys.argv
+names = [a for a in sys.argv[1:] if not a.startswith('--')] or sorted(os.listdir(f'{VERIF}/seeded'))
 # only checks whose units lift text from a file the patch touches can change their verdict: run just those
 import re
 _units = json.load(open(f'{VERIF}/units.json'))
@@ -33,8 +36,18 @@ for name in names:
     try:
         man = json.load(open(f'{VERIF}/MANIFEST.json'))
         aff = affected(f'{d}/patch.diff')
-        for c in man['checks']:
-            p = c['property_id']
+        order = [c['property_id'] for c in man['checks']]
+        if FIRST_HIT:
+            try:
+                prev = json.load(open(f'{d}/meta.json')).get('caught_by', [])
+            except Exception:
+                prev = []
+            first = [name.split('_')[0]] + [p for p in prev if p != name.split('_')[0]]
+            order = [p for p in first if p in order] + [p for p in order if p not in first]
+        hit = False
+        for p in order:
+            if FIRST_HIT and hit:
+                break
             if p not in aff:
                 checks[p] = {'exit': 0, 'lines': ['not run: no unit of this property lifts text from a file the patch touches'], 'wall_s': 0}
                 continue
@@ -44,6 +57,7 @@ for name in names:
             checks[p] = {'exit': rc, 'lines': [l[:300] for l in lines], 'wall_s': round(time.time() - t, 1)}
             for l in lines:
                 if l.startswith('VIOLATION'):
+                    hit = True
                     rp = l.split('replay=')[1].split()[0]
                     try:
                         rec = json.load(open(rp))
@@ -52,12 +66,19 @@ for name in names:
                         pass
     finally:
         sh(f'git -C {REPO} checkout -- .')
+    if FIRST_HIT:
+        cb = [p for p, c in checks.items() if c['exit'] == 1]
+        print(name, 'caught_by', cb, '(first hit; checks run: ' + ' '.join(p for p, c in checks.items() if c['wall_s']) + ')', flush=True)
+        for p in cb:
+            for l in checks[p]['lines']:
+                if l.startswith('VIOLATION'): print('   ', p, l[:200], flush=True)
+        continue
     meta = json.load(open(f'{d}/meta.json'))
     meta['checks_against_it'] = checks
     meta['caught_by'] = [p for p, c in checks.items() if c['exit'] == 1]
     meta['undecided'] = [p for p, c in checks.items() if c['exit'] == 2]
     json.dump(meta, open(f'{d}/meta.json', 'w'), indent=1)
-    print(name, 'caught_by', meta['caught_by'], 'undecided', meta['undecided'])
+    print(name, 'caught_by', meta['caught_by'], 'undecided', meta['undecided'], flush=True)
     for p in meta['caught_by']:
         for l in checks[p]['lines']:
             if l.startswith('VIOLATION'): print('   ', p, l[:200])
